@@ -68,20 +68,20 @@ func registerHarness(e *Engine) {
 	e.Intr["harness.vfBool"] = func(c *Call) []*State {
 		tag := c.constStr(0)
 		v := FreshVar(tag, SBool, 0)
-		c.St.Nondets = append(c.St.Nondets, NondetRec{Tag: tag, Kind: "bool", Term: v})
+		c.St.Nondets = append(c.St.Nondets, NondetRec{Src: "h", Tag: tag, Kind: "bool", Term: v})
 		return c.Return(v)
 	}
 	e.Intr["harness.vfInt"] = func(c *Call) []*State {
 		tag := c.constStr(0)
 		v := FreshVar(tag, SBV, 64)
-		c.St.Nondets = append(c.St.Nondets, NondetRec{Tag: tag, Kind: "int", Term: v})
+		c.St.Nondets = append(c.St.Nondets, NondetRec{Src: "h", Tag: tag, Kind: "int", Term: v})
 		return c.Return(v)
 	}
 	e.Intr["harness.vfRange"] = func(c *Call) []*State {
 		tag := c.constStr(0)
 		lo, hi := c.argTerm(1), c.argTerm(2)
 		v := FreshVar(tag, SBV, 64)
-		c.St.Nondets = append(c.St.Nondets, NondetRec{Tag: tag, Kind: "int", Term: v})
+		c.St.Nondets = append(c.St.Nondets, NondetRec{Src: "h", Tag: tag, Kind: "int", Term: v})
 		c.St.Assume(BVSle(lo, v))
 		c.St.Assume(BVSle(v, hi))
 		return c.Return(v)
@@ -90,7 +90,7 @@ func registerHarness(e *Engine) {
 		tag := c.constStr(0)
 		mx := c.argTerm(1)
 		v := FreshVar(tag, SString, 0)
-		c.St.Nondets = append(c.St.Nondets, NondetRec{Tag: tag, Kind: "string", Term: v})
+		c.St.Nondets = append(c.St.Nondets, NondetRec{Src: "h", Tag: tag, Kind: "string", Term: v})
 		c.St.Assume(intCmp("<=", StrLenInt(v), BVToInt(mx)))
 		return c.Return(v)
 	}
@@ -105,7 +105,7 @@ func registerHarness(e *Engine) {
 		for i := 0; i < n; i++ {
 			i := i
 			outs = append(outs, Outcome{Cond: True, Ret: BVC(uint64(i), 64), Eff: func(s *State) {
-				s.Nondets = append(s.Nondets, NondetRec{Tag: tag, Kind: "choice", Conc: i})
+				s.Nondets = append(s.Nondets, NondetRec{Src: "h", Tag: tag, Kind: "choice", Conc: i})
 			}})
 		}
 		return c.Outcomes(c.sol2(), outs)
@@ -126,6 +126,7 @@ func registerHarness(e *Engine) {
 		e.mu.Lock()
 		e.AssertSites[label]++
 		e.mu.Unlock()
+		c.St.Labels = append(c.St.Labels, "A:"+label)
 		q := c.St.quick(cond)
 		if q == 1 {
 			return c.Return(nil)
@@ -139,9 +140,9 @@ func registerHarness(e *Engine) {
 			r, _ = sol.Check(as, nil)
 		}
 		atomic.AddInt64(&e.AssertQ[r], 1)
-		if len(e.SampleQ) < 3 && r == Unsat {
+		if len(e.SampleQ) < 4 && r == Unsat {
 			e.mu.Lock()
-			if len(e.SampleQ) < 3 {
+			if len(e.SampleQ) < 4 {
 				var b strings.Builder
 				b.WriteString(label + ": ")
 				for _, a := range as {
@@ -184,6 +185,7 @@ func registerHarness(e *Engine) {
 		c.E.mu.Lock()
 		c.E.Reached[label]++
 		c.E.mu.Unlock()
+		c.St.Labels = append(c.St.Labels, "R:"+label)
 		return c.Return(nil)
 	}
 	e.Intr["harness.vfClass"] = func(c *Call) []*State {
